@@ -366,6 +366,26 @@ Example C06_sheet_history_wins_nonvacuous : exists st1 st2 st3,
 Proof. exact sheet_history_wins_nonvacuous. Qed.
 Print Assumptions C06_sheet_history_wins_nonvacuous.
 
+(* a has_group condition may hang off a row of ANY type (wait_for_response, split_by_value, an action
+   row, a no_op decision — [test_in it c]: some row of the item, at any depth of inserted templates,
+   has an outgoing edge with a group test naming c): the flow that FlowParser returns has that test
+   among the references the container's record and assign hooks visit, so every theorem above about
+   [occs] (one uuid per name, listed at top level, explicit wins, conflicts rejected) speaks about it.
+   Rests on C06_tables_ok (the hooks do not look at the operand of the router) and on
+   C06_sheet_tables_ok (the test such an edge creates is of a type the hooks visit). *)
+Theorem C06_sheet_edge_tests_are_refs : forall ud fs ud' f it c,
+  parse_flow uuid_row_hooks uuid_block_shared ud fs = Ok (ud', f) -> In it (fs_items fs) -> test_in it c ->
+  In (KGroup, (c, None)) (flow_refs uuid_action_record uuid_case_record f).
+Proof. exact sheet_edge_tests_are_refs. Qed.
+Print Assumptions C06_sheet_edge_tests_are_refs.
+
+Example C06_sheet_edge_tests_nonvacuous : exists st st',
+  sheet_parse_all ex_sheet_edge_wb = Ok st /\ validate st = Ok st'
+  /\ length (filter (fun o => match fst o with KGroup => true | KFlow => false end) (occs (st_c st'))) = 7%nat
+  /\ forallb (fun o => match fst o with KGroup => pyuuid_eqb (snd (snd o)) uA | KFlow => true end) (occs (st_c st')) = true.
+Proof. exact sheet_edge_tests_nonvacuous. Qed.
+Print Assumptions C06_sheet_edge_tests_nonvacuous.
+
 (* history independence of the long-lived ContentIndexParser in the model: what parse_all returns,
    and every render after it, does not depend on what was parsed or rendered before it (the trace
    the correspondence compares with ONE ContentIndexParser run through P R R P R) *)
